@@ -494,9 +494,19 @@ class Directory(object):
 
     def unregister_computation(self, computation: ComputationName,
                                agent: AgentName=None):
+        if agent is not None and \
+                self._computations_data.get(computation, agent) != agent:
+            # Stale un-registration: the computation has already been
+            # registered on another agent (e.g. when it is migrated during a
+            # repair, the new host may publish it before the un-publication
+            # from the departed agent arrives).
+            return
         try:
             self._computations_data.pop(computation)
-            self.discovery.unregister_computation(computation)
+            # Like for registration, do not publish: we are the directory.
+            # Publishing would send ourselves an un-publication that could be
+            # handled after a newer registration of this computation.
+            self.discovery.unregister_computation(computation, publish=False)
         except (KeyError, UnknownComputation):
             return
         # notify interested agents
